@@ -74,6 +74,8 @@ type World struct {
 	// LinksInProduct: the link directory IS the verification directory (the links lie next to the final
 	// product, as in the in-toto demo); everything in the link directory is then recorded by inspections
 	LinksInProduct bool `json:"links_in_product,omitempty"`
+	// RunDirRel (entry "rundir"): the run directory is named relative to the working directory ("product")
+	RunDirRel bool `json:"run_dir_rel,omitempty"`
 }
 
 // Built is a materialised world.
@@ -122,6 +124,9 @@ func (b *Built) subst(s string) string {
 	s = strings.ReplaceAll(s, "@EMIT@", filepath.Join(BinDir(), "emit"))
 	s = strings.ReplaceAll(s, "@LOG@", b.LogPath)
 	s = strings.ReplaceAll(s, "@ROOT@", b.Root)
+	if b.W.RunDirRel && b.W.Entry == "rundir" {
+		s = strings.ReplaceAll(s, "@RUNDIR@", "product")
+	}
 	s = strings.ReplaceAll(s, "@RUNDIR@", filepath.Join(b.Root, "run", "product"))
 	return s
 }
@@ -317,7 +322,7 @@ func Materialise(w World, root string) (*Built, error) {
 		}
 	}
 	// what an isolated verifier process needs (cmd/worker "verify")
-	vf := VerifyFile{Entry: w.Entry, LineNorm: w.LineNorm, Keys: b.VerifierKeyMap(), Params: w.Params, LinksInProduct: w.LinksInProduct}
+	vf := VerifyFile{Entry: w.Entry, LineNorm: w.LineNorm, Keys: b.VerifierKeyMap(), Params: w.Params, LinksInProduct: w.LinksInProduct, RunDirRel: w.RunDirRel}
 	for _, p := range b.IntermediatePEMs() {
 		vf.Intermediates = append(vf.Intermediates, string(p))
 	}
@@ -472,6 +477,9 @@ func (b *Built) VerifyWith(layout intoto.Metadata, keys map[string]intoto.Key, p
 	if b.W.Entry == "rundir" {
 		cwd = filepath.Join(runRoot, "cwd")
 		_ = os.MkdirAll(cwd, 0o755)
+		if b.W.RunDirRel {
+			cwd = runRoot
+		}
 	}
 	if _, err := os.Stat(filepath.Join(b.Root, "cwd-extra")); err == nil {
 		if err := copyTree(filepath.Join(b.Root, "cwd-extra"), cwd); err != nil {
@@ -518,7 +526,11 @@ func (b *Built) VerifyWith(layout intoto.Metadata, keys map[string]intoto.Key, p
 			}
 		}()
 		if b.W.Entry == "rundir" {
-			out.Summary, out.Err = intoto.InTotoVerifyWithDirectory(layout, keys, linkDir, prod, b.StepName, params, b.IntermediatePEMs(), b.W.LineNorm)
+			rd := prod
+			if b.W.RunDirRel {
+				rd = "product"
+			}
+			out.Summary, out.Err = intoto.InTotoVerifyWithDirectory(layout, keys, linkDir, rd, b.StepName, params, b.IntermediatePEMs(), b.W.LineNorm)
 		} else {
 			out.Summary, out.Err = intoto.InTotoVerify(layout, keys, linkDir, b.StepName, params, b.IntermediatePEMs(), b.W.LineNorm)
 		}
@@ -585,6 +597,7 @@ type VerifyFile struct {
 	Params        map[string]string     `json:"params"`
 	Intermediates []string              `json:"intermediates"`
 	LinksInProduct bool                 `json:"links_in_product"`
+	RunDirRel      bool                 `json:"run_dir_rel"`
 }
 
 // VerifyResult is the isolated verifier's report.
@@ -624,6 +637,9 @@ func VerifyIsolated(root string) VerifyResult {
 	if vf.Entry == "rundir" {
 		cwd = filepath.Join(runRoot, "cwd")
 		_ = os.MkdirAll(cwd, 0o755)
+		if vf.RunDirRel {
+			cwd = runRoot
+		}
 	}
 	if extra := filepath.Join(root, "cwd-extra"); dirExists(extra) {
 		if err := copyTree(extra, cwd); err != nil {
@@ -662,7 +678,11 @@ func VerifyIsolated(root string) VerifyResult {
 			return
 		}
 		if vf.Entry == "rundir" {
-			_, err = intoto.InTotoVerifyWithDirectory(layout, vf.Keys, b.LinkDir, prod, "", params, pems, vf.LineNorm)
+			rd := prod
+			if vf.RunDirRel {
+				rd = "product"
+			}
+			_, err = intoto.InTotoVerifyWithDirectory(layout, vf.Keys, b.LinkDir, rd, "", params, pems, vf.LineNorm)
 		} else {
 			_, err = intoto.InTotoVerify(layout, vf.Keys, b.LinkDir, "", params, pems, vf.LineNorm)
 		}
